@@ -119,6 +119,22 @@ func literalTemplates(full bool) (names []string, files map[string]string) {
 		alone("\t{ a.S(\"s1\") }" + sp + "{ a.S(\"s2\") }")
 		alone("\t<b>{ a.S(\"s1\") }</b>" + sp + "{ a.S(\"s2\") }" + sp + "<i>x</i>" + sp + "{ a.S(\"s1\") }")
 	}
+	// long static runs: one literal of n bytes for n around 4 KiB and 64 KiB (line-oriented readers and fixed buffers
+	// have their limits there); the literals after it must still be the right ones
+	var longs []int
+	for n := 4080; n <= 4100; n++ {
+		longs = append(longs, n)
+	}
+	longs = append(longs, 1000, 5000, 8192, 65000, 70000)
+	if full {
+		for n := 65490; n <= 65545; n++ {
+			longs = append(longs, n)
+		}
+		longs = append(longs, 200000)
+	}
+	for _, n := range longs {
+		add("\t<pre>" + strings.Repeat("L", n) + "</pre>{ a.S(\"s1\") }<p>after é</p>{ a.S(\"s2\") }<i>end</i>")
+	}
 	alone("\t{ a.S(\"s1\") }\n\t{ a.S(\"s2\") }")
 	alone("\t{ a.S(\"s1\") }")
 	add("\t<!DOCTYPE html>\n\t<html lang=\"en\"><body class=\"a b\">{ a.S(\"s1\") }<br/><input type=\"text\" value=\"q&quot;q\"/></body></html>")
